@@ -1,6 +1,6 @@
 (* Extraction of the executable model (ExtrOcamlBasic only; Z, positive, N, nat stay Coq's inductives). *)
 From Coq Require Import ZArith List.
-From DV Require Import Base Bid Arith OpsArith Judge.
+From DV Require Import Base Bid Arith OpsArith OpsCmp OpsMisc OpsConv OpsStr Judge.
 Require Import Extraction ExtrOcamlBasic.
 Extraction Language OCaml.
 Extraction "model.ml" expected judge expect_list md_of.
